@@ -11,6 +11,7 @@ import (
 	"regexp/syntax"
 	"sort"
 	"strconv"
+	"strings"
 	"time"
 	"unicode"
 	"unicode/utf8"
@@ -122,6 +123,46 @@ func (s *sim) accepts(b []byte) bool {
 	}
 	return false
 }
+
+func got2(s *sim, b []byte) bool { return s.accepts(b) }
+
+// dump serialises the automaton through the exported accessors (structure only).
+func dump(n *nfa.NFA) string {
+	var sb strings.Builder
+	fmt.Fprintf(&sb, "start=%d n=%d;", n.StartAnchored(), n.States())
+	for i := 0; i < n.States(); i++ {
+		st := n.State(nfa.StateID(i))
+		fmt.Fprintf(&sb, "%d:%d", i, st.Kind())
+		switch st.Kind() {
+		case nfa.StateEpsilon:
+			fmt.Fprintf(&sb, ">%d", st.Epsilon())
+		case nfa.StateSplit:
+			l, r := st.Split()
+			fmt.Fprintf(&sb, ">%d,%d", l, r)
+		case nfa.StateCapture:
+			a, b, next := st.Capture()
+			fmt.Fprintf(&sb, "c%v,%v>%d", a, b, next)
+		case nfa.StateByteRange:
+			lo, hi, next := st.ByteRange()
+			fmt.Fprintf(&sb, "[%x-%x]>%d", lo, hi, next)
+		case nfa.StateSparse:
+			for _, t := range st.Transitions() {
+				fmt.Fprintf(&sb, "[%x-%x]>%d", t.Lo, t.Hi, t.Next)
+			}
+		case nfa.StateRuneAny:
+			fmt.Fprintf(&sb, ">%d", st.RuneAny())
+		case nfa.StateRuneAnyNotNL:
+			fmt.Fprintf(&sb, ">%d", st.RuneAnyNotNL())
+		}
+		sb.WriteByte(';')
+	}
+	return sb.String()
+}
+
+// reused holds, per compilation mode, ONE nfa.Compiler per worker process on which every program of the worker's
+// units is compiled as well (twice in a row), after everything compiled before: the compiled automaton must be a
+// function of the program, not of what the Compiler value was used for earlier (nfa.Compiler is an exported type).
+var reused []*nfa.Compiler
 
 type prog struct {
 	src  string // the class / literal / dot source `c`
@@ -319,7 +360,17 @@ func Plan(tier string) *harness.Plan {
 		mem := newMember(p.src)
 		e2e, e2eErr := coregex.Compile(`^(?:` + p.src + `)$`)
 		var sims []*sim
-		for _, m := range modes {
+		// rsims[mi]: simulators over automata produced by the long-lived Compiler of that mode when they differ
+		// structurally from the fresh compiler's automaton (nil entries / empty when identical)
+		rsims := make([][]*sim, len(modes))
+		if reused == nil {
+			for _, m := range modes {
+				cfg := m.cfg
+				cfg.MaxRecursionDepth = 100
+				reused = append(reused, nfa.NewCompiler(cfg))
+			}
+		}
+		for mi, m := range modes {
 			cfg := m.cfg
 			cfg.MaxRecursionDepth = 100
 			n, err := nfa.NewCompiler(cfg).CompileRegexp(re)
@@ -329,6 +380,21 @@ func Plan(tier string) *harness.Plan {
 				continue
 			}
 			sims = append(sims, newSim(n))
+			want := dump(n)
+			for round := 0; round < 2; round++ {
+				rn, rerr := reused[mi].CompileRegexp(re)
+				w.C["compilations_on_a_reused_compiler"]++
+				if rerr != nil {
+					w.Fail(&harness.Case{Op: "compile-on-reused-compiler", Mode: m.name, Pattern: p.src, Hay: `""`, Want: "compiles like a fresh Compiler", Got: rerr.Error(), Cluster: p.kind + "/reused"})
+					continue
+				}
+				if dump(rn) == want {
+					w.C["reused_compiler_automaton_identical"]++
+					continue
+				}
+				w.C["reused_compiler_automaton_structurally_different"]++
+				rsims[mi] = append(rsims[mi], newSim(rn))
+			}
 		}
 		if e2eErr != nil {
 			w.Fail(&harness.Case{Op: "coregex.Compile", Mode: "end-to-end", Pattern: p.src, Hay: `""`, Want: "compiles", Got: e2eErr.Error(), Cluster: p.kind})
@@ -377,6 +443,15 @@ func Plan(tier string) *harness.Plan {
 				}
 				if s.bad != "" {
 					panic("ax: " + s.bad + ": " + p.src)
+				}
+				// a structurally different automaton from the long-lived Compiler: a violation where it answers
+				// differently from the fresh one AND from the oracle (one report per program and mode)
+				for _, rs := range rsims[mi] {
+					evals++
+					if rgot := rs.accepts(b); rgot != want && rgot != got2(s, b) && failed[modes[mi].name+"/reused"] == 0 {
+						failed[modes[mi].name+"/reused"]++
+						w.Fail(&harness.Case{Op: "nfa-accepts-reused-compiler", Mode: modes[mi].name, Pattern: p.src, Hay: strconv.Quote(string(b)), Want: strconv.FormatBool(want), Got: strconv.FormatBool(rgot) + " (Compiler value used for earlier programs)", Cluster: p.kind + "/reused"})
+					}
 				}
 			}
 			if e2e != nil {
@@ -473,7 +548,7 @@ func Plan(tier string) *harness.Plan {
 				}
 			}
 		},
-		Rule:   "Programs: . and (?s:.), every Perl and POSIX class and negation, Unicode category/script tables and negations, every range [x-y] and its negation with endpoints at the UTF-8 encoding boundaries (±1), case-folded classes, single-rune literals and (?i:r) for runes with a non-trivial simple-fold orbit, and two-class concatenations. Each is compiled by nfa.Compiler in default, rune-state and ASCII-only mode and walked by an independent anchored simulator over the NFA's exported states, and end-to-end by coregex.Match(^(?:c)$); inputs: the UTF-8 encoding of EVERY code point (classes, dot) or the fold orbit ± 1 and boundary runes (literals, concatenations), every byte string of length <= 2, every string of length 3 (thorough: 4) over 25 boundary bytes. Oracle: package regexp (class membership from regexp/syntax's own range tables for the code-point sweep, cross-validated against regexp.Match every 4099th rune; regexp.Match for byte strings). At most 40 failing inputs per program and mode are reported individually (the rest are counted). states = transitions = acceptance evaluations; non-trivial = inputs the oracle accepts.",
+		Rule:   "Programs: . and (?s:.), every Perl and POSIX class and negation, Unicode category/script tables and negations, every range [x-y] and its negation with endpoints at the UTF-8 encoding boundaries (±1), case-folded classes, single-rune literals and (?i:r) for runes with a non-trivial simple-fold orbit, and two-class concatenations. Each is compiled by a fresh nfa.Compiler in default, rune-state and ASCII-only mode — and twice in a row on ONE long-lived Compiler per mode that has compiled every earlier program of the worker (the automaton must not depend on the Compiler's history: structural identity with the fresh automaton, else the same input sweep) — and walked by an independent anchored simulator over the NFA's exported states, and end-to-end by coregex.Match(^(?:c)$); inputs: the UTF-8 encoding of EVERY code point (classes, dot) or the fold orbit ± 1 and boundary runes (literals, concatenations), every byte string of length <= 2, every string of length 3 (thorough: 4) over 25 boundary bytes. Oracle: package regexp (class membership from regexp/syntax's own range tables for the code-point sweep, cross-validated against regexp.Match every 4099th rune; regexp.Match for byte strings). At most 40 failing inputs per program and mode are reported individually (the rest are counted). states = transitions = acceptance evaluations; non-trivial = inputs the oracle accepts.",
 		Level:  "model_checking",
 		Bounds: map[string]any{"programs": len(ps), "byte_strings": len(bstrs), "code_points": 0x110000 - 0x800, "modes": []string{"default", "rune-states", "ascii-only", "end-to-end"}},
 		Budget: map[bool]time.Duration{false: 150 * time.Second, true: 25 * time.Minute}[thorough],
